@@ -209,6 +209,42 @@ pub fn generate(rng: &mut Rng, tier: Tier, emit: &mut dyn FnMut(String)) {
         // the same schedule with the model's line (slow in the model: 32768 callers in association lists)
         emit(format!("ka 1/100/100 {}", vec!["s"; 32768].join(";")));
     }
+    // the event stream (a connection with an event sender): well-formed events are forwarded and do not disturb the
+    // requests; a non-EVENT opcode, a truncated or garbage body on stream -1 ends the router (CqlEventHandlingError)
+    {
+        let good = event_bodies();
+        for i in 0..(if quick { 60 } else { 600 }) {
+            let n = rng.range(0, 5) as usize;
+            let mut ops: Vec<String> = vec!["s".to_owned(); n];
+            let mut alive_answers = n;
+            for _ in 0..rng.range(1, 5) {
+                match rng.below(10) {
+                    0..=4 => {
+                        let b = rng.pick(&good).clone();
+                        ops.push(format!("b{}", hex(&frame_bytes(0, -1, 0x0C, &b))));
+                    }
+                    5 if alive_answers > 0 => {
+                        ops.push("r0".into());
+                        alive_answers -= 1;
+                    }
+                    6 => ops.push("s".into()),
+                    7 => {
+                        // truncated / garbage event body
+                        let b = rng.pick(&good).clone();
+                        let cut = rng.below(b.len() as u64) as usize;
+                        ops.push(format!("b{}", hex(&frame_bytes(0, -1, 0x0C, &b[..cut]))));
+                    }
+                    8 => ops.push(format!("b{}", hex(&frame_bytes(0, -1, *rng.pick(&[0x08u8, 0x02, 0x00, 0x06]), &rng.bytes(4))))),
+                    _ => ops.push(format!("b{}", hex(&frame_bytes(0, *rng.pick(&[-2i16, -7, i16::MIN]), 0x0C, &good[0])))),
+                }
+            }
+            if i % 5 == 0 {
+                ops.push("u-1".into());
+            }
+            ops.push("s".into());
+            emit(format!("conne {} {}", rng.below(2), ops.join(";")));
+        }
+    }
     // hints: long before the first tick; while a probe is in flight (stored, consumed afterwards); twice (one permit)
     for c in [
         "ka 1/30000/300 s;s;t500;h",
@@ -216,6 +252,12 @@ pub fn generate(rng: &mut Rng, tier: Tier, emit: &mut dyn FnMut(String)) {
         "ka 0/2000/300 s;t2000;h;r1;t100;s;r1",
         "ka 1/1000/300 h;s;t500;h;r0;r0;t400;t200",
         "conn 1 s;h;r0;h;s",
+        // a stored hint AND a due tick when the keepaliver comes back from a probe: `select!` draws one of the two
+        // ready arms at random; the model accepts either draw (membership)
+        "ka 1/500/1000 s;t500;h;t500;r1;t100;r1;t100;r1",
+        "ka 0/500/1000 s;t500;h;t500;r1;t100;r1;t100;r1",
+        "ka 1/500/2500 t500;h;t600;r0;t50;r0;t50;r0;s",
+        "ka 1/1000/2500 s;t1000;h;t1000;r1;r1;r1;t100",
     ] {
         emit(c.to_owned());
     }
@@ -322,10 +364,39 @@ fn run_frames(bytes: &[u8], ctx: &mut Ctx) -> String {
     format!("{} | {}", if out.is_empty() { "-".to_owned() } else { out.join(" ") }, tail)
 }
 
+/// Well-formed EVENT bodies (protocol v4): what `EventV2::deserialize` accepts.
+fn event_bodies() -> Vec<Vec<u8>> {
+    use crate::mocknode::w_string;
+    let inet = |b: &mut Vec<u8>| {
+        b.push(4);
+        b.extend_from_slice(&[127, 0, 0, 7]);
+        b.extend_from_slice(&9042i32.to_be_bytes());
+    };
+    let mut v = Vec::new();
+    for (ty, what) in [("STATUS_CHANGE", "UP"), ("STATUS_CHANGE", "DOWN"), ("TOPOLOGY_CHANGE", "NEW_NODE"), ("TOPOLOGY_CHANGE", "REMOVED_NODE")] {
+        let mut b = Vec::new();
+        w_string(&mut b, ty);
+        w_string(&mut b, what);
+        inet(&mut b);
+        v.push(b);
+    }
+    let mut b = Vec::new();
+    w_string(&mut b, "SCHEMA_CHANGE");
+    w_string(&mut b, "CREATED");
+    w_string(&mut b, "KEYSPACE");
+    w_string(&mut b, "ks1");
+    v.push(b);
+    v
+}
+
 fn run_conn(wc: bool, ka: Option<(u64, u64)>, ops: &[&str], ctx: &mut Ctx) -> String {
+    run_conn_ev(wc, ka, false, ops, ctx)
+}
+
+fn run_conn_ev(wc: bool, ka: Option<(u64, u64)>, events: bool, ops: &[&str], ctx: &mut Ctx) -> String {
     let rt = runtime();
     rt.block_on(async {
-        let mut sim = ConnSim::new(wc, ka.map(|(i, t)| (Duration::from_millis(i), Duration::from_millis(t))));
+        let mut sim = ConnSim::new_ev(wc, ka.map(|(i, t)| (Duration::from_millis(i), Duration::from_millis(t))), events);
         settle().await;
         for op in ops {
             if !sim.op(op, ctx).await {
@@ -354,6 +425,19 @@ fn run_conn(wc: bool, ka: Option<(u64, u64)>, ops: &[&str], ctx: &mut Ctx) -> St
             }
         }
         let line = sim.finish(ctx).await;
+        if events {
+            // ORACLE: every forwarded event is a well-formed EVENT frame the server sent on stream -1 (in order); on a
+            // connection that did not break all of them are forwarded
+            let good = event_bodies();
+            let sent_events: Vec<&(Option<Vec<u8>>, i16, Vec<u8>)> =
+                sim.sent.iter().filter(|(_, s, b)| *s == -1 && good.contains(b)).collect();
+            if sim.events_seen.len() > sent_events.len() {
+                ctx.fail(format!("{} events forwarded, only {} well-formed EVENT frames were sent", sim.events_seen.len(), sent_events.len()));
+            }
+            if sim.broken.is_none() && sim.events_seen.len() != sent_events.len() {
+                ctx.fail(format!("{} well-formed EVENT frames sent on a healthy connection, {} forwarded", sent_events.len(), sim.events_seen.len()));
+            }
+        }
         // ORACLE: once the connection is broken no request is left hanging …
         if sim.broken.is_some() {
             for (k, o) in sim.outcomes.iter().enumerate() {
@@ -621,6 +705,9 @@ pub fn run(case: &str, ctx: &mut Ctx) -> String {
         },
         Some("conn") if (w.len() == 2 || w.len() == 3) && (w[1] == "0" || w[1] == "1") => {
             run_conn(w[1] == "1", None, &ops(w.get(2)), ctx)
+        }
+        Some("conne") if (w.len() == 2 || w.len() == 3) && (w[1] == "0" || w[1] == "1") => {
+            run_conn_ev(w[1] == "1", None, true, &ops(w.get(2)), ctx)
         }
         Some("kax") if w.len() == 3 => match w[2].parse::<usize>() {
             Ok(n) => run_kax(w[1], n, ctx),
